@@ -1,0 +1,255 @@
+//go:build verif
+
+package deque
+
+// Contracts for the deductive verifier in /verif (properties C04 and C15). Only part of the build
+// under the tag `verif`.
+
+//@ pure Len(d) = (d.a == nil || d.back == -1) ? 0 : (d.front <= d.back ? d.back - d.front + 1 : len(d.a) - d.front + d.back + 1)
+//@ pure slot(d, i) = d.front + i < len(d.a) ? d.front + i : d.front + i - len(d.a)
+//@ pure item(d, i) = row(d.a)[slot(d, i)]
+//@ pred live(d, j) = Len(d) > 0 && (d.front <= d.back ? (d.front <= j && j <= d.back) : (j >= d.front || j <= d.back))
+
+// the three reachable shapes: zero value, allocated and empty, non-empty
+//@ pred shape(d) = off(d.a) == 0 && (
+//@      (d.a == nil && d.front == 0 && d.back == 0)
+//@   || (d.a != nil && d.back == -1 && d.front == 0)
+//@   || (d.a != nil && len(d.a) > 0 && 0 <= d.front && d.front < len(d.a) && 0 <= d.back && d.back < len(d.a)))
+
+// slots outside the live window hold the zero value ("popped elements are not retained")
+//@ pred hygiene(d) = forall k int {row(d.a)[k]} :: 0 <= k && k < len(d.a) && !live(d, k) ==> row(d.a)[k] == zero(T)
+//@ pred wf(d) = shape(d) && hygiene(d)
+
+//@ pred sameRep(d) = d.a == old(d.a) && d.front == old(d.front) && d.back == old(d.back) && row(d.a) == old(row(d.a))
+//@ pred sameView(d) = Len(d) == old(Len(d)) && (forall i int {item(d, i)} :: 0 <= i && i < Len(d) ==> item(d, i) == old(item(d, i)))
+
+// two-state invariant behind C15: while the generation is unchanged the representation is unchanged
+//@ pred ti(d) = d.gen >= old(d.gen) && (d.gen == old(d.gen) ==> sameRep(d)) && (Len(d) != old(Len(d)) ==> d.gen > old(d.gen))
+
+//@ func positiveMod
+//@   props C04
+//@   requires d > 0 && l >= -d
+//@   ensures 0 <= result && result < d && (l >= 0 && l < d ==> result == l) && (l < 0 ==> result == l + d)
+
+//@ func Deque.Len
+//@   props C04
+//@   requires wf(d)
+//@   ensures result == Len(d) && result >= 0
+
+//@ func Deque.resize
+//@   props C04 C15
+//@   requires wf(d) && n >= Len(d)
+//@   modifies d.a, d.front, d.back, d.gen
+//@   ensures d.a != nil && fresh(d.a) && off(d.a) == 0 && len(d.a) == n && d.front == 0 && d.back == old(Len(d)) - 1
+//@   ensures forall k int {row(d.a)[k]} :: 0 <= k && k < old(Len(d)) ==> row(d.a)[k] == old(row(d.a)[slot(d, k)])
+//@   ensures forall k int {row(d.a)[k]} :: old(Len(d)) <= k && k < n ==> row(d.a)[k] == zero(T)
+//@   ensures C15: d.gen > old(d.gen)
+
+//@ func Deque.maybeExpand
+//@   props C04 C15
+//@   requires wf(d)
+//@   modifies d.a, d.front, d.back, d.gen
+//@   ensures wf(d) && Len(d) == old(Len(d)) && Len(d) < len(d.a)
+//@   ensures (sameRep(d) && d.gen == old(d.gen)) || (fresh(d.a) && d.front == 0 && d.gen > old(d.gen)
+//@            && (forall k int {row(d.a)[k]} :: 0 <= k && k < Len(d) ==> row(d.a)[k] == old(row(d.a)[slot(d, k)])))
+
+//@ func Deque.PushFront
+//@   props C04 C15
+//@   requires wf(d)
+//@   modifies d.a, d.front, d.back, d.gen, elems(d.a)
+//@   ensures wf(d) && Len(d) == old(Len(d)) + 1 && item(d, 0) == item
+//@   ensures forall i int {item(d, i)} :: 1 <= i && i <= old(Len(d)) ==> item(d, i) == old(item(d, i-1))
+//@   ensures C15: ti(d)
+
+//@ func Deque.PushBack
+//@   props C04 C15
+//@   requires wf(d)
+//@   modifies d.a, d.front, d.back, d.gen, elems(d.a)
+//@   ensures wf(d) && Len(d) == old(Len(d)) + 1 && item(d, old(Len(d))) == item
+//@   ensures forall i int {item(d, i)} :: 0 <= i && i < old(Len(d)) ==> item(d, i) == old(item(d, i))
+//@   ensures C15: ti(d)
+
+//@ func Deque.PopFront
+//@   props C04 C15
+//@   requires wf(d)
+//@   modifies d.front, d.back, d.gen, elems(d.a)
+//@   panics when Len(d) == 0
+//@   ensures wf(d) && result == old(item(d, 0)) && Len(d) == old(Len(d)) - 1
+//@   ensures forall i int {item(d, i)} :: 0 <= i && i < Len(d) ==> item(d, i) == old(item(d, i+1))
+//@   ensures C15: ti(d)
+
+//@ func Deque.PopBack
+//@   props C04 C15
+//@   requires wf(d)
+//@   modifies d.front, d.back, d.gen, elems(d.a)
+//@   panics when Len(d) == 0
+//@   ensures wf(d) && result == old(item(d, Len(d)-1)) && Len(d) == old(Len(d)) - 1
+//@   ensures forall i int {item(d, i)} :: 0 <= i && i < Len(d) ==> item(d, i) == old(item(d, i))
+//@   ensures C15: ti(d)
+
+//@ func Deque.Front
+//@   props C04
+//@   requires wf(d)
+//@   panics when Len(d) == 0
+//@   ensures result == item(d, 0)
+
+//@ func Deque.Back
+//@   props C04
+//@   requires wf(d)
+//@   panics when Len(d) == 0
+//@   ensures result == item(d, Len(d)-1)
+
+//@ func Deque.Item
+//@   props C04
+//@   requires wf(d)
+//@   panics when i < 0 || i >= Len(d)
+//@   ensures result == item(d, i)
+
+//@ func Deque.Set
+//@   props C04 C15
+//@   requires wf(d)
+//@   modifies elems(d.a), d.gen
+//@   panics when i < 0 || i >= Len(d)
+//@   ensures wf(d) && Len(d) == old(Len(d)) && item(d, i) == t && d.a == old(d.a) && d.front == old(d.front) && d.back == old(d.back)
+//@   ensures forall k int {item(d, k)} :: 0 <= k && k < Len(d) && k != i ==> item(d, k) == old(item(d, k))
+//@   ensures C15: ti(d)
+
+//@ func Deque.Grow
+//@   props C04 C15
+//@   requires wf(d)
+//@   modifies d.a, d.front, d.back, d.gen
+//@   ensures wf(d) && sameView(d)
+//@   ensures old(len(d.a) - Len(d)) < n ==> len(d.a) == old(len(d.a)) + n
+//@   ensures old(len(d.a) - Len(d)) >= n ==> sameRep(d) && d.gen == old(d.gen)
+//@   ensures C15: ti(d)
+
+//@ func Deque.Shrink
+//@   props C04 C15
+//@   requires wf(d)
+//@   modifies d.a, d.front, d.back, d.gen
+//@   panics when n < 0
+//@   ensures wf(d) && sameView(d)
+//@   ensures old(len(d.a) - Len(d)) > n ==> len(d.a) == Len(d) + n
+//@   ensures old(len(d.a) - Len(d)) <= n ==> sameRep(d) && d.gen == old(d.gen)
+//@   ensures C15: ti(d)
+
+// ---- iterator (C15): snapshot-or-panic ----
+
+//@ ghost dequeIterator.ga []T
+//@ ghost dequeIterator.grow seq[T]
+//@ ghost dequeIterator.gfront int
+//@ ghost dequeIterator.gback int
+//@ ghost dequeIterator.p int
+
+// length and slots of the snapshot taken by Iterate
+//@ pure snapLen(it) = (it.ga == nil || it.gback == -1) ? 0 : (it.gfront <= it.gback ? it.gback - it.gfront + 1 : len(it.ga) - it.gfront + it.gback + 1)
+//@ pure snapSlot(it, i) = it.gfront + i < len(it.ga) ? it.gfront + i : it.gfront + i - len(it.ga)
+//@ pure snapItem(it, i) = it.grow[snapSlot(it, i)]
+//@ pred snapShape(it) = off(it.ga) == 0 && ((it.ga == nil && it.gfront == 0 && it.gback == 0) || (it.ga != nil && it.gback == -1 && it.gfront == 0)
+//@      || (it.ga != nil && len(it.ga) > 0 && 0 <= it.gfront && it.gfront < len(it.ga) && 0 <= it.gback && it.gback < len(it.ga)))
+
+// the deque still has the representation it had when the snapshot was taken
+//@ pred atSnap(it) = it.d.a == it.ga && it.d.front == it.gfront && it.d.back == it.gback && row(it.d.a) == it.grow
+// generation stability seen from the iterator: a consequence of ti(d) holding across every mutator
+//@ pred iterStable(it) = it.d != nil && it.gen <= it.d.gen && (it.gen == it.d.gen ==> atSnap(it))
+// representation invariant of the iterator's own fields
+//@ pred iterRep(it) = snapShape(it) && 0 <= it.p && it.p <= snapLen(it)
+//@      && (snapLen(it) == 0 ==> it.p == 0)
+//@      && (snapLen(it) > 0 ==> ((it.done <==> it.p == snapLen(it)) && (!it.done ==> it.i == snapSlot(it, it.p))))
+
+//@ func Deque.Iterate
+//@   props C15
+//@   requires wf(d)
+//@   ghost result.(*dequeIterator[T]).ga := d.a
+//@   ghost result.(*dequeIterator[T]).grow := row(d.a)
+//@   ghost result.(*dequeIterator[T]).gfront := d.front
+//@   ghost result.(*dequeIterator[T]).gback := d.back
+//@   ghost result.(*dequeIterator[T]).p := 0
+//@   ensures fresh(result)
+//@   ensures let it = result.(*dequeIterator[T]) in it.d == d && it.ga == d.a && it.grow == row(d.a) && it.gfront == d.front && it.gback == d.back && it.p == 0
+//@        && iterStable(it) && iterRep(it) && snapLen(it) == Len(d)
+
+//@ func dequeIterator.Next
+//@   props C15
+//@   requires iterStable(iter) && iterRep(iter) && wf(iter.d)
+//@   modifies iter.i, iter.done, iter.p
+//@   panics when iter.gen != iter.d.gen
+//@   ghost iter.p := old(iter.p) < snapLen(iter) ? old(iter.p) + 1 : old(iter.p)
+//@   ensures iterRep(iter) && iterStable(iter)
+//@   ensures old(iter.p) < snapLen(iter) ==> result1 && result0 == snapItem(iter, old(iter.p)) && iter.p == old(iter.p) + 1
+//@   ensures old(iter.p) == snapLen(iter) ==> !result1 && result0 == zero(T) && iter.p == old(iter.p)
+
+// ---- ghost clients ----
+
+//@ func verifClientZeroValue
+//@   props C04
+//@   ensures true
+func verifClientZeroValue[T any](v, w T) {
+	var d0 Deque[T]
+	d := &d0
+	//@ assert wf(d) && Len(d) == 0
+	d.PushFront(v)
+	d.PushBack(w)
+	//@ assert Len(d) == 2 && item(d, 0) == v && item(d, 1) == w
+	x := d.PopFront()
+	//@ assert x == v && Len(d) == 1 && item(d, 0) == w
+	y := d.PopBack()
+	//@ assert y == w && Len(d) == 0
+	d.Shrink(0)
+	d.PushFront(v)
+	//@ assert Len(d) == 1 && item(d, 0) == v
+	_, _ = x, y
+	return
+}
+
+//@ func verifClientRoundTrip
+//@   props C04
+//@   requires d != nil && wf(d)
+//@   ensures true
+func verifClientRoundTrip[T any](d *Deque[T], v T) {
+	d.PushFront(v)
+	//@ assert item(d, 0) == v && Len(d) == old(Len(d)) + 1
+	w := d.PopFront()
+	//@ assert w == v && Len(d) == old(Len(d))
+	d.PushBack(v)
+	u := d.PopBack()
+	//@ assert u == v && Len(d) == old(Len(d))
+	_, _ = w, u
+	return
+}
+
+//@ func verifClientIterStable
+//@   props C15
+//@   requires d != nil && wf(d) && it != nil && it.d == d && iterStable(it) && 0 <= op && op < 8
+//@   ensures true
+func verifClientIterStable[T any](d *Deque[T], it *dequeIterator[T], op int, v T, n int) {
+	// whatever a mutator does, an outstanding iterator either still sees its snapshot or its
+	// generation no longer matches (so that its next call panics)
+	switch op {
+	case 0:
+		d.PushFront(v)
+	case 1:
+		d.PushBack(v)
+	case 2:
+		if d.Len() > 0 {
+			d.PopFront()
+		}
+	case 3:
+		if d.Len() > 0 {
+			d.PopBack()
+		}
+	case 4:
+		if 0 <= n && n < d.Len() {
+			d.Set(n, v)
+		}
+	case 5:
+		d.Grow(n)
+	case 6:
+		if n >= 0 {
+			d.Shrink(n)
+		}
+	}
+	//@ assert iterStable(it)
+	//@ assert Len(d) != old(Len(d)) ==> it.gen != d.gen
+	return
+}
